@@ -45,10 +45,14 @@ DOCUMENTED_OPS = {
     "laws.dynamics.reaction_force_from_action_force.calculate_force_reaction": "abs",
     "definitions.impedance_is_resistance_and_reactance.calculate_impedance_magnitude": "abs",
     "laws.electricity.circuits.filters.filter_order_from_distortion_and_frequencies.calculate_order": "ceiling",
-    "laws.electricity.circuits.filters.band_pass_chebyshev_filter_oder_from_distortion_and_frequencies.calculate_order": "ceiling",
-    "laws.electricity.circuits.filters.butterworth_filter_order_from_distortion_and_frequencies.calculate_order": "ceiling",
-    "laws.electricity.circuits.filters.high_pass_chebyshev_filter_order_from_distortion_and_frequencies.calculate_order": "ceiling",
-    "laws.electricity.circuits.filters.low_pass_chebyshev_filter_order_from_distortion_and_frequencies.calculate_order": "ceiling",
+    "laws.electricity.circuits.filters.band_pass_chebyshev_filter_oder_from_distortion_and_frequencies."
+    "calculate_band_pass_chebyshev_filter_order": "ceiling",
+    "laws.electricity.circuits.filters.butterworth_filter_order_from_distortion_and_frequencies."
+    "calculate_butterworth_filter_order": "ceiling",
+    "laws.electricity.circuits.filters.high_pass_chebyshev_filter_order_from_distortion_and_frequencies."
+    "calculate_chebyshev_filter_order": "ceiling",
+    "laws.electricity.circuits.filters.low_pass_chebyshev_filter_order_from_distortion_and_frequencies."
+    "calculate_low_pass_chebyshev_filter_order": "ceiling",
 }
 
 # names rebound in the module's globals for the duration of the generic execution (worker process only).
@@ -60,6 +64,8 @@ REBOUND = {
     "scale_factor": "scale_factor(v) -> v  (SI value of an argument is the argument symbol itself)",
     "assert_equivalent_dimension": "assert_equivalent_dimension(...) -> no-op  (C04: arguments are dimensionally valid "
                                    "by the property's premise; the dimension of the result is C04's concern)",
+    "Probability": "Probability(v) -> v, refusing v outside [0, 1]  (contract of core/symbols/probability.py)",
+    "Fraction": "Fraction(v) -> v, refusing v outside [0, 1]  (contract of core/symbols/fraction.py)",
 }
 
 
@@ -278,6 +284,7 @@ def _associate(c: Contract, mod, eq):
                 return f"two parameters are guarded by the same law symbol {amap[p.name]}"
             used.add(amap[p.name])
     # name convention for parameters the decorators leave without a law symbol (unguarded or dimension-only guard)
+    pending = []
     for p in c.params:
         if amap[p.name] is not None:
             continue
@@ -292,11 +299,33 @@ def _associate(c: Contract, mod, eq):
             d = getattr(cand, "dimension", None)
             ok = d is not None and _dims_equiv(d, p.spec)
         if not ok:
-            return (f"parameter {p.name}: the decorator names no law symbol and the module has no law symbol called "
-                    f"'{base}' (association would be a guess)")
+            pending.append(p)
+            continue
         amap[p.name] = cand
         hows[p.name] = "name-convention"
         used.add(cand)
+    label_syms = {getattr(b, "label", None) for b in bases}
+
+    def plain_free():
+        return [s for s in syms if s not in used and not isinstance(s, (sp.Idx, sp.Indexed)) and s not in label_syms
+                and not any(s in (getattr(i, "label", None), getattr(i, "lower", None), getattr(i, "upper", None))
+                            for i in idx_syms)]
+
+    idx_syms = {i for a in eq.atoms(sp.Indexed) for i in a.indices if isinstance(i, sp.Idx)}
+    if pending:
+        # counting rule: ONE parameter without a symbol, result symbol named by the decorator, ONE law symbol left over
+        p = pending[0]
+        left = [s for s in plain_free() if s != (c.out_spec if c.out_kind == "sym" else None)]
+        ok = len(pending) == 1 and c.out_kind in ("sym", "fun") and len(left) == 1
+        if ok and p.kind == "dim":
+            d = getattr(left[0], "dimension", None)
+            ok = d is not None and _dims_equiv(d, p.spec)
+        if not ok:
+            return (f"parameter {p.name}: the decorator names no law symbol and the module has no law symbol called "
+                    f"'{p.name.rstrip('_')}' (association would be a guess)")
+        amap[p.name] = left[0]
+        hows[p.name] = "only-symbol-left"
+        used.add(left[0])
     # result
     atoms_all = set(syms) | set(bases) | {a for a in applied}
     # arguments of applied functions are symbols too (already in syms)
@@ -311,8 +340,7 @@ def _associate(c: Contract, mod, eq):
     elif c.out_kind == "idx":
         return "result is an indexed family (one member of a sum); which member is not named by the decorator"
     else:
-        free = [s for s in syms if s not in used and not isinstance(s, sp.Idx)]
-        free = [s for s in free if not any(s in a.args for a in applied if a in used)] if False else free
+        free = plain_free()
         if len(free) == 1:
             res, rhow = free[0], "remaining-symbol"
             if c.out_kind == "dim":
@@ -324,8 +352,7 @@ def _associate(c: Contract, mod, eq):
                     f"{len(free)} unassociated symbols")
     if res in used:
         return f"result symbol {res} also guards a parameter"
-    unbound = [s for s in syms if s not in used and s != res and not isinstance(s, sp.Idx)
-               and not (isinstance(s, sp.Symbol) and any(s == getattr(b, "label", None) for b in bases))]
+    unbound = [s for s in plain_free() if s != res]
     if unbound:
         return f"law symbols {sorted(map(str, unbound))} are named by no guard (their values are not determined by the call)"
     return {"params": amap, "hows": hows, "result": res, "result_how": rhow}
@@ -391,6 +418,18 @@ def _t_noop(*_a, **_k):
     return None
 
 
+class Refusal(ValueError):
+    """The function under contract refuses this part of the domain."""
+
+
+def _t_unit_interval(value):
+    """Contract of core.symbols.probability.Probability / fraction.Fraction: refuse outside [0, 1], identity inside."""
+    value = sp.sympify(value)
+    if value < 0 or value > 1:  # forks on symbolic values
+        raise Refusal("value outside [0..1]")
+    return value
+
+
 @contextmanager
 def transparent(globs: dict):
     """Rebind, by identity, the real library names in the function's globals; restore afterwards."""
@@ -406,6 +445,18 @@ def transparent(globs: dict):
         "scale_factor": (Q.scale_factor, _t_identity),
         "assert_equivalent_dimension": (AED, _t_noop),
     }
+    try:
+        from symplyphysics.core.symbols.probability import Probability
+        from symplyphysics.core.symbols.fraction import Fraction as SFraction
+        real["Probability"] = (Probability, _t_unit_interval)
+        real["Fraction"] = (SFraction, _t_unit_interval)
+    except Exception:  # noqa: BLE001
+        pass
+    # a Quantity built from a symbolic SI value is that expression: give expressions the two attributes bodies read
+    had = {k: sp.Expr.__dict__.get(k) for k in ("scale_factor", "dimension")}
+    sp.Expr.scale_factor = property(lambda self: self)
+    from sympy.physics.units import Dimension as _Dim
+    sp.Expr.dimension = property(lambda self: _Dim(1))
     saved = {}
     for name, val in list(globs.items()):
         for rn, (obj, repl) in real.items():
@@ -413,9 +464,17 @@ def transparent(globs: dict):
                 saved[name] = val
                 globs[name] = repl
     try:
-        yield sorted(saved)
+        yield sorted(set(rn for name in saved for rn, (obj, _r) in real.items() if saved[name] is obj))
     finally:
         globs.update(saved)
+        for k, v in had.items():
+            if v is None:
+                try:
+                    delattr(sp.Expr, k)
+                except AttributeError:
+                    pass
+            else:
+                setattr(sp.Expr, k, v)
 
 
 class PathLimit(Exception):
@@ -621,44 +680,182 @@ def explog_axioms(tr: Tr, exprs):
     return facts, sorted(used)
 
 
-def prove_zero(name, goals, *, assume=(), domain_exprs=(), signature="", abs_alt=None, timeout_s=SMT_TIMEOUT_S,
-               extra_domain=()):
-    """goals: sympy expressions that must vanish (conjunction).  abs_alt: alternative goal list (disjunction, for abs).
+_INTERPRETED = (sp.sin, sp.cos, sp.tan, sp.cot, sp.Abs, sp.sign, sp.Max, sp.Min, sp.Piecewise)
 
-    returns (Ob, model, tr, axioms_used)."""
-    t0 = time.time()
-    alts = [list(goals)] + ([list(abs_alt)] if abs_alt is not None else [])
-    # ---- nf: identically zero wherever defined
+
+def _opaque_apps(exprs):
+    out = set()
+    for e in exprs:
+        for a in e.atoms(sp.Function):
+            if not isinstance(a, _INTERPRETED):
+                out.add(a)
+        for a in e.atoms(sp.Pow):
+            if not a.exp.is_Rational:
+                out.add(a)
+    return out
+
+
+def congruence(exprs, rounds=3):
+    """f(a) and f(b) with a == b as rational functions (nf) are the same term: rewrite to one representative."""
+    exprs = [sp.sympify(e) for e in exprs]
+    for _ in range(rounds):
+        apps = sorted(_opaque_apps(exprs), key=lambda a: (sp.count_ops(a), str(a)))
+        groups = {}
+        for a in apps:
+            groups.setdefault((a.func, len(a.args)), []).append(a)
+        rep = {}
+        for (_f, _n), items in groups.items():
+            reps = []
+            for a in items:
+                for r in reps:
+                    try:
+                        if all(nf_is_zero(x - y) is True for x, y in zip(a.args, r.args)):
+                            rep[a] = r
+                            break
+                    except Unsupported:
+                        pass
+                else:
+                    reps.append(a)
+        if not rep:
+            break
+        exprs = [e.xreplace(rep) for e in exprs]
+    return exprs
+
+
+def _entailed_signs(hyps, tr: Tr, symbols):
+    """Symbols whose sign follows from the hypotheses (domain facts): {symbol: +1 | -1}."""
+    out = {}
+    for s in symbols:
+        if s.is_positive or s.is_negative or s not in tr.atoms:
+            continue
+        v = tr.atoms[s]
+        r, _, _, _ = check_sat(hyps + [v <= 0], timeout_s=2.0, use_cvc5=False)
+        if r == "unsat":
+            out[s] = 1
+            continue
+        r, _, _, _ = check_sat(hyps + [v >= 0], timeout_s=2.0, use_cvc5=False)
+        if r == "unsat":
+            out[s] = -1
+    return out
+
+
+def _z3_problem(alts, assume, domain_exprs, extra_domain=()):
+    tr = Tr()
+    zalts = [z3.And([tr.tr(g) == 0 for g in alt]) for alt in alts]
+    goal = zalts[0] if len(zalts) == 1 else z3.Or(zalts)
+    hyps = [tr.trb(a) for a in assume]
+    allex = [sp.sympify(g) for alt in alts for g in alt] + [sp.sympify(d) for d in domain_exprs]
+    for a in assume:
+        allex += [sp.sympify(x) for x in getattr(a, "args", ()) if isinstance(x, sp.Expr)]
+    hyps += _domain_facts(tr, allex)
+    ax, used = explog_axioms(tr, allex)
+    hyps += ax
+    hyps += tr.facts()
+    return tr, list(dict.fromkeys(hyps)), goal, used
+
+
+def _nf_all(alts) -> bool:
     try:
         with time_limit(NF_TIMEOUT_S):
             for alt in alts:
                 if all(nf_is_zero(g) is True for g in alt):
-                    return Ob(name, PROVED, "nf", (time.time() - t0) * 1000, "", signature), None, None, []
-    except Unsupported:
+                    return True
+    except (Unsupported, MemoryError):
         pass
-    except MemoryError:
+    except _Timeout:
         pass
-    except Exception:  # noqa: BLE001 - includes the time limit: nf is only a fast path
+    except Exception:  # noqa: BLE001 - nf is only a fast path
+        pass
+    return False
+
+
+def prove_zero(name, goals, *, assume=(), domain_exprs=(), signature="", abs_alt=None, timeout_s=SMT_TIMEOUT_S):
+    """goals: sympy expressions that must vanish (conjunction).  abs_alt: alternative goal list (disjunction, for abs).
+
+    Stages: nf -> congruence + nf -> z3 -> sign-normalised rebuild (symbols whose sign the hypotheses entail become
+    positive symbols, SymPy re-evaluates powers/logs) + nf + z3.   returns (Ob, model, tr, axioms_used)."""
+    t0 = time.time()
+    alts = [[sp.sympify(g) for g in goals]] + ([[sp.sympify(g) for g in abs_alt]] if abs_alt is not None else [])
+    if _nf_all(alts):
+        return Ob(name, PROVED, "nf", (time.time() - t0) * 1000, "", signature), None, None, []
+    used_all = []
+    try:
+        with time_limit(NF_TIMEOUT_S * 2):
+            flat = [g for alt in alts for g in alt]
+            cflat = congruence(flat + list(domain_exprs))
+            k = 0
+            calts = []
+            for alt in alts:
+                calts.append(cflat[k:k + len(alt)])
+                k += len(alt)
+            cdomain = cflat[k:]
+        if calts != alts:
+            used_all.append("congruence: f(a) = f(b) when a = b as rational functions")
+            alts, domain_exprs = calts, cdomain
+            if _nf_all(alts):
+                return Ob(name, PROVED, "nf", (time.time() - t0) * 1000, "after congruence", signature), None, None, used_all
+    except (_Timeout, Exception):  # noqa: BLE001
         pass
     ms_nf = (time.time() - t0) * 1000
-    tr = Tr()
     try:
-        zalts = [z3.And([tr.tr(g) == 0 for g in alt]) for alt in alts]
-        goal = zalts[0] if len(zalts) == 1 else z3.Or(zalts)
-        hyps = [tr.trb(a) for a in assume]
-        allex = [sp.sympify(g) for alt in alts for g in alt] + [sp.sympify(d) for d in domain_exprs]
-        hyps += _domain_facts(tr, allex)
-        for d in extra_domain:
-            hyps.append(tr.trb(d))
-        ax, used = explog_axioms(tr, allex)
-        hyps += ax
-        hyps += tr.facts()
-        hyps = list(dict.fromkeys(hyps))
+        tr, hyps, goal, used = _z3_problem(alts, assume, domain_exprs)
     except Unsupported as u:
-        return Ob(name, UNKNOWN, "z3", (time.time() - t0) * 1000, f"translation unsupported: {u}", signature), None, None, []
+        return (Ob(name, UNKNOWN, "z3", (time.time() - t0) * 1000, f"translation unsupported: {u}", signature), None, None,
+                used_all)
+    used_all += used
     ob, model = smt_prove(name, hyps, goal, timeout_s=timeout_s, signature=signature)
     ob.ms += ms_nf
-    return ob, model, tr, used
+    if ob.verdict in (PROVED, FAULT):
+        return ob, model, tr, used_all
+    # ---- sign-normalised rebuild
+    has_pow = any(_opaque_apps([g]) for alt in alts for g in alt)
+    if has_pow:
+        t1 = time.time()
+        syms = sorted(set().union(*[g.free_symbols for alt in alts for g in alt]), key=str)
+        signs = _entailed_signs(hyps, tr, syms)
+        if signs:
+            rep = {s: (sp.Symbol(s.name, positive=True) if sg > 0 else -sp.Symbol(s.name + "__neg", positive=True))
+                   for s, sg in signs.items()}
+
+            def rebuild(e):
+                e = sp.sympify(e).xreplace(rep)
+                if isinstance(e, sp.Expr):
+                    try:
+                        e = sp.expand_log(sp.expand_power_base(sp.powdenest(e)))
+                        e = sp.powsimp(e)
+                    except Exception:  # noqa: BLE001
+                        pass
+                return e
+
+            alts2 = [[rebuild(g) for g in alt] for alt in alts]
+            assume2 = [a.xreplace(rep) for a in assume]
+            dom2 = [rebuild(d) for d in domain_exprs]
+            note = "sign-normalised: " + ", ".join(f"{s}{'>0' if g > 0 else '<0'}" for s, g in signs.items())
+            used_all.append("symbols whose sign the domain facts entail are rebuilt as positive symbols; SymPy "
+                            "auto-evaluation, powdenest, expand_power_base, expand_log, powsimp (no force) then apply")
+            if _nf_all(alts2):
+                return Ob(name, PROVED, "nf", ob.ms + (time.time() - t1) * 1000, note, signature), None, None, used_all
+            try:
+                alts2 = _regroup(congruence([g for alt in alts2 for g in alt]), alts2)
+                tr2, hyps2, goal2, used2 = _z3_problem(alts2, assume2, dom2)
+                # the entailed signs were consequences of the original hypotheses: keep those as well is unnecessary,
+                # the rebuilt problem is the same formula under a renaming of symbols
+                ob2, model2 = smt_prove(name, hyps2, goal2, timeout_s=timeout_s, signature=signature)
+                ob2.ms += ob.ms
+                if ob2.verdict == PROVED:
+                    ob2.detail = note
+                    return ob2, None, tr2, used_all
+            except Unsupported:
+                pass
+    return ob, model, tr, used_all
+
+
+def _regroup(flat, like):
+    out, k = [], 0
+    for alt in like:
+        out.append(flat[k:k + len(alt)])
+        k += len(alt)
+    return out
 
 
 # ===================================================================================== numeric side
@@ -921,8 +1118,8 @@ def symbolic_function(c: Contract, law_attr, eq, assoc, rng) -> tuple[str, list,
         for k, (cond, (tag, val)) in enumerate(paths):
             pname = sname + (f"/path{k}" if len(paths) > 1 else "")
             if tag == "raise":
-                if isinstance(val, ValueError):
-                    continue  # the function refuses this part of the domain
+                if isinstance(val, (ValueError, AssertionError)):
+                    continue  # the function refuses this part of the domain (explicit raise / boundary assert)
                 return ("unreachable", [], f"generic execution raised {type(val).__name__}: {str(val)[:160]}",
                         rebound_all, [])
             returned += 1
@@ -937,6 +1134,8 @@ def symbolic_function(c: Contract, law_attr, eq, assoc, rng) -> tuple[str, list,
                 ob = _discharge_path(c, law_attr, eq, pairs, n_by_base, val, cond, pname, args, rng, axioms_all)
             except Unsupported as u:
                 return "unreachable", [], f"unsupported: {u}", rebound_all, []
+            except FloatOnly as u:
+                return "unreachable", [], str(u), rebound_all, []
             obs.append(ob)
         if returned == 0:
             return "unreachable", [], "every generic path raises (function refuses all symbolic inputs)", rebound_all, []
@@ -950,62 +1149,83 @@ def symbolic_function(c: Contract, law_attr, eq, assoc, rng) -> tuple[str, list,
     return "undecided", obs, "", rebound_all, axioms_all
 
 
+class FloatOnly(Exception):
+    """Residual carries machine floats and does not vanish exactly: equality only to numerical precision."""
+
+
+def _has_float(*exprs) -> bool:
+    return any(sp.sympify(e).atoms(sp.Float) for e in exprs)
+
+
 def _discharge_path(c, law_attr, eq, pairs, n_by_base, val, cond, pname, args, rng, axioms_all) -> Ob:
     sig = c.qual
     res_atom = c.out_target
-    full = pairs + [(res_atom, val)]
-    R = law_residual(eq, full, n_by_base)
-    R, _ = reduce_constants(R)
-    valc, _ = reduce_constants(val)
-    cond = [reduce_constants(x)[0] for x in cond]
-    abs_alt = None
-    goals = [R]
-    assume = list(cond)
-    if c.op == "abs":
-        R2, _ = reduce_constants(law_residual(eq, pairs + [(res_atom, -val)], n_by_base))
-        abs_alt = [R2]
-        # result must be a magnitude: non-negative
-        goals = [R, sp.Abs(valc) - valc]
-        abs_alt = [R2, sp.Abs(valc) - valc]
-    # ---- D0: all real arguments (with the declared sign assumptions), wherever the terms are defined
-    ob, model, tr, used = prove_zero(pname, goals, assume=assume, domain_exprs=[valc], signature=sig, abs_alt=abs_alt)
-    for u in used:
-        if u not in axioms_all:
-            axioms_all.append(u)
-    if ob.verdict == PROVED:
-        ob.detail = "domain=all-real-arguments"
-        return ob
-    if ob.verdict == FAULT:
-        return ob
-    first = ob
-    # ---- D1: the law is satisfiable at all over the reals for these arguments (some real r0 solves it)
     r0 = sp.Symbol("vf_r0", real=True, **{k: True for k in SIGN_KEYS
                                             if getattr(res_atom, "assumptions0", {}).get(k) is True})
-    H, _ = reduce_constants(law_residual(eq, pairs + [(res_atom, r0)], n_by_base))
-    ob2, model2, tr2, used2 = prove_zero(pname, goals, assume=assume + [sp.Eq(H, 0, evaluate=False)] if H != 0 else assume,
-                                         domain_exprs=[valc, H], signature=sig, abs_alt=abs_alt)
-    for u in used2:
-        if u not in axioms_all:
-            axioms_all.append(u)
-    if ob2.verdict == PROVED:
-        ob2.detail = "domain=arguments-for-which-the-law-has-a-real-solution"
-        ob2.ms += first.ms
-        return ob2
-    if ob2.verdict == FAULT and first.verdict == REFUTED:
-        # no argument tuple admits a real solution: vacuous; report the D0 refutation instead
-        ob2, model2, tr2 = first, model, tr
-    if ob2.verdict == REFUTED or (first.verdict == REFUTED and ob2.verdict == UNKNOWN):
-        if ob2.verdict != REFUTED:
-            ob2, model2, tr2 = first, model, tr
-        ob2.ms += first.ms if ob2 is not first else 0
-        ob2.detail += " | residual: " + str(R)[:300] + " | returned: " + str(valc)[:200]
-        ob2.replay = _concretize(c, law_attr, eq, model2, tr2, args, cond, R, H, rng)
-        if ob2.replay.get("reproduced"):
-            ob2.detail += " | failing input: " + str(ob2.replay.get("inputs"))
-        return ob2
-    ob2.ms += first.ms
-    ob2.detail = (ob2.detail + f" | D0: {first.verdict}")[:400]
-    return ob2
+    R_raw = law_residual(eq, pairs + [(res_atom, val)], n_by_base)
+    Rm_raw = law_residual(eq, pairs + [(res_atom, -val)], n_by_base) if c.op == "abs" else None
+    H_raw = law_residual(eq, pairs + [(res_atom, r0)], n_by_base)
+    from sympy.physics.units import Quantity as SymQuantity
+    has_consts = any(sp.sympify(x).atoms(SymQuantity) for x in (R_raw, val, *cond))
+    variants = [("constants-as-positive-symbols", lambda e: reduce_constants(e)[0])]
+    if has_consts:
+        variants.append(("constants-numeric", numeric_constants))
+    t_all = time.time()
+    final = None
+    for vname, conv in variants:
+        R, valc, H = conv(R_raw), conv(val), conv(H_raw)
+        pc = [conv(x) for x in cond]
+        goals, abs_alt = [R], None
+        if c.op == "abs":
+            goals = [R, sp.Abs(valc) - valc]  # a magnitude: a solution or minus a solution, and non-negative
+            abs_alt = [conv(Rm_raw), sp.Abs(valc) - valc]
+        # ---- D0: all real arguments (with the declared sign assumptions), wherever the terms are defined
+        ob0, m0, tr0, used = prove_zero(pname, goals, assume=pc, domain_exprs=[valc], signature=sig, abs_alt=abs_alt)
+        _merge(axioms_all, used)
+        if ob0.verdict == PROVED:
+            ob0.detail = ("domain=all-real-arguments;" + vname + (";" + ob0.detail if ob0.detail else ""))
+            ob0.ms = (time.time() - t_all) * 1000
+            return ob0
+        if ob0.verdict == FAULT:
+            return ob0
+        # ---- D1: arguments for which the law has a real solution at all (some real r0 solves it)
+        ob1, m1, tr1 = ob0, m0, tr0
+        if H != 0 and r0 in sp.sympify(H).free_symbols:
+            ob1, m1, tr1, used = prove_zero(pname, goals, assume=pc + [sp.Eq(H, 0, evaluate=False)],
+                                            domain_exprs=[valc, H], signature=sig, abs_alt=abs_alt)
+            _merge(axioms_all, used)
+            if ob1.verdict == PROVED:
+                ob1.detail = ("domain=arguments-for-which-the-law-has-a-real-solution;" + vname
+                              + (";" + ob1.detail if ob1.detail else ""))
+                ob1.ms = (time.time() - t_all) * 1000
+                return ob1
+            if ob1.verdict == FAULT:  # no argument tuple admits a real solution: report D0's answer
+                ob1, m1, tr1 = ob0, m0, tr0
+        final = (vname, ob0, ob1, m1, tr1, R, valc, H, pc)
+    vname, ob0, ob1, m1, tr1, R, valc, H, pc = final
+    if _has_float(R, valc):
+        raise FloatOnly("machine floats: the residual does not vanish exactly with floats read as exact rationals "
+                        f"({ob1.verdict} by {ob1.backend}); equality to numerical precision is decided by the bounded stand-in")
+    ob = ob1
+    ob.ms = (time.time() - t_all) * 1000
+    if ob.verdict == REFUTED:
+        ob.detail += " | residual: " + str(R)[:300] + " | returned: " + str(valc)[:200]
+        try:
+            with time_limit(EXEC_TIMEOUT_S):
+                ob.replay = _concretize(c, law_attr, eq, m1, tr1, args, pc, R, H, rng)
+        except _Timeout:
+            ob.replay = {"reproduced": False, "script": None, "message": "search for a concrete input timed out"}
+        if ob.replay.get("reproduced"):
+            ob.detail += " | failing input: " + str(ob.replay.get("inputs"))
+        return ob
+    ob.detail = (ob.detail + f" | D0: {ob0.verdict}")[:400]
+    return ob
+
+
+def _merge(dst: list, src):
+    for u in src:
+        if u not in dst:
+            dst.append(u)
 
 
 @contextmanager
@@ -1125,7 +1345,7 @@ def bounded_function(c: Contract, law_attr, eq, assoc, rng, npoints: int) -> dic
     """Call the DECORATED real function at seeded random magnitudes and unit prefixes; check the law residual."""
     _fill_targets(c, assoc)
     accepted, refused, failures, errors = 0, 0, [], []
-    tries = 0
+    tries = illcond = 0
     seqs = [p for p in c.params if _is_seq_param(p)]
     while accepted < npoints and tries < npoints * 12:
         tries += 1
@@ -1135,9 +1355,6 @@ def bounded_function(c: Contract, law_attr, eq, assoc, rng, npoints: int) -> dic
             def one():
                 v = math.exp(rng.uniform(math.log(0.05), math.log(20)))
                 tgt = p.target
-                if isinstance(tgt, sp.Symbol) and not (tgt.is_positive or tgt.is_nonnegative) and tries % 4 == 3 \
-                        and rng.random() < 0.5:
-                    v = -v
                 if _ann_str(p) == "int" or (isinstance(tgt, sp.Symbol) and tgt.is_integer):
                     v = float(rng.randint(1, 6))
                 return _entry(p, v, rng)
@@ -1156,6 +1373,9 @@ def bounded_function(c: Contract, law_attr, eq, assoc, rng, npoints: int) -> dic
         try:
             pairs, n_by_base = _numeric_pairs(c, assoc, kwargs, result)
             ok, lv, rv, detail = numeric_residual(eq, pairs, n_by_base, c.op)
+            if not ok and c.op == "" and _ill_conditioned(eq, pairs, n_by_base):
+                illcond += 1
+                continue
         except Exception as e:  # noqa: BLE001
             errors.append(f"residual not evaluable: {type(e).__name__}: {str(e)[:160]}")
             if len(errors) > 6:
@@ -1170,7 +1390,31 @@ def bounded_function(c: Contract, law_attr, eq, assoc, rng, npoints: int) -> dic
                 "replay": {"reproduced": True, "inputs": {k: str(v) for k, v in entries.items()},
                            "script": replay_script(c, law_attr, entries)},
             })
-    return {"accepted": accepted, "refused": refused, "failures": failures, "errors": errors, "tries": tries}
+    return {"accepted": accepted, "refused": refused, "failures": failures, "errors": errors, "tries": tries,
+            "ill_conditioned": illcond}
+
+
+def _ill_conditioned(eq, pairs, n_by_base) -> bool:
+    """A point where the law's own sides move by more than the tolerance when the ARGUMENTS move by 1e-13 relative:
+    float64 arguments cannot carry the information there (e.g. a phase of 1e30 rad); such points are skipped."""
+    try:
+        e = instantiate_law(eq, n_by_base or {})
+
+        def sides(pp):
+            return _nval(_subst(e.lhs, pp)), _nval(_subst(e.rhs, pp))
+
+        def bump(v):
+            if isinstance(v, list):
+                return [bump(x) for x in v]
+            return sp.sympify(v) * (1 + sp.Rational(1, 10**13))
+
+        l0, r0 = sides(pairs)
+        pp = [(a, bump(v)) for a, v in pairs[:-1]] + [pairs[-1]]
+        l1, r1 = sides(pp)
+        scale = max(abs(l0), abs(r0), 1e-300)
+        return max(abs(l1 - l0), abs(r1 - r0)) > REL_TOL * scale / 10
+    except Exception:  # noqa: BLE001
+        return False
 
 
 # ===================================================================================== module worker
@@ -1268,6 +1512,16 @@ def _process_function(mod, fname, fr: FnResult, rng, npoints, demoted, generate)
     else:
         vs = {o.verdict for o in fr.obs}
         fr.klass = "refuted" if REFUTED in vs else "undecided" if UNKNOWN in vs else "fault" if FAULT in vs else "proved"
+        if any(_is_seq_param(p) for p in c.params) and fr.klass in ("proved", "refuted"):
+            # for-all-values proofs, but only at sequence lengths 1..3: a bounded family, not counted as proved
+            fails = [{"name": o.name, "detail": o.detail, "signature": o.signature, "replay": o.replay}
+                     for o in fr.obs if o.verdict == REFUTED]
+            fr.bounded = {"accepted": len(fr.obs), "refused": 0, "failures": fails, "errors": [], "tries": len(fr.obs),
+                          "kind": "lengths"}
+            fr.reason = (f"sequence parameter: law residual discharged for ALL values at lengths {list(SEQ_LENGTHS)} "
+                         f"({', '.join(sorted({o.backend for o in fr.obs}))}); other lengths not covered")
+            fr.klass = "bounded_length"
+            fr.obs = []
 
 
 # ===================================================================================== crash-isolating pool
